@@ -46,7 +46,7 @@ func isFieldLoadNamed(v ssa.Value, names ...string) bool {
 func runC20(c *Ctx) {
 	r, p := c.R, c.P
 	r.Summary = "C20 (processing cost grows near-linearly with input size): decided clauses = absence of three structural sources of super-linear work on the tokenize/convert/parse/serialise paths: (1) a loop that rescans the input (or its line index) from a fixed start, inside a function that is called from an input-proportional loop; (2) string accumulation with += in a loop (each step copies the accumulated prefix); (3) a whole-input copy string(input) inside a loop on an edge that stays in the loop."
-	r.NotCov = []string{"time itself, constant factors, allocation behaviour", "regex engines of ScanSQL", "recursion-driven cost in tree consumers (the collectors' double traversal is reported under C15)"}
+	r.NotCov = []string{"time itself, constant factors, allocation behaviour", "regex engines of ScanSQL", "recursion-driven cost in tree consumers other than the per-level copy of a loop-built chain (chain-copy); the collectors' double traversal is reported under C15"}
 	r.Rule("rescan", "a tokenizer function whose loop walks input / lineStarts with a local index (not the tokenizer's own cursor) must not be reachable from a call site inside a per-token or per-comment loop")
 	r.Rule("string-accumulation", "no string is built by s = s + x (or s += x) on a loop-carried variable in tokenizer, parser or ast serialiser code; use strings.Builder")
 	r.Rule("memo-kept", "the fields a memo-resumed scan keeps its memo in are written, outside that scan, only by code that no loop of the package reaches (reset between inputs); a write reachable from a per-token loop drops the memo each time and restores the rescan")
@@ -56,6 +56,7 @@ func runC20(c *Ctx) {
 	c20InputCopy(c, p)
 	c20SearchInLoop(c, p)
 	c20AccumulatorScan(c, p)
+	c20ChainCopy(c, p)
 	r.Rule("slice-rescan-in-loop", "in tokenizer, parser, gosqlx and language-server code no call inside a loop passes a loop-invariant slice to a function that walks that parameter from its first element (range loop, or index loop from a constant to len): each iteration would walk the whole list again")
 	if nsr := c20SliceRescan(c, p, nil, "pkg/sql/tokenizer", "pkg/sql/parser", "pkg/gosqlx", "pkg/lsp"); nsr == 0 {
 		r.OK("slice-rescan-in-loop", "scan", "-", "no call in a loop hands a loop-invariant list to a function that walks it from the start")
